@@ -11,7 +11,7 @@ CLAIMED['C19'] = dict(
 	     'The AtClose hypothesis and the call sequence are validated by fault enumeration on every run: the writer runs in a forked '
 	     'child with the three h5py entry points counted and is killed (os._exit) at every boundary 0..N of ~35 collections (quick; 661 '
 	     'kills), the observed calls must equal the model prefix, the remains must be refused with the model\'s error class, the '
-	     'completed write must load as written; multi-megabyte payloads in the thorough tier.',
+	     'completed write must load as written; multi-megabyte payloads in the thorough tier. The command-line writer is covered as well: `gambit signatures create` is run in a child process and killed before, during and after the signature calculation and at every storage-call boundary (cli_kill kind); whatever is left at the output path must be refused or load as exactly the requested collection.',
 	note='Trusted: Coq kernel; extraction + OCaml driver; libhdf5/OS durability (AtClose) -- an assumption of C19_atclose/C19_complete, '
 	     'observed at every enumerated boundary but not provable from the repository\'s code; os._exit as a model of process death; kills '
 	     'inside a libhdf5 call are not enumerated; h5py interception sees all storage calls (cross-checked against the model call list). '
